@@ -26,12 +26,21 @@
 //!   of a group revived earlier in the history;
 //! * `D21:memberof-worklist-livelock`        — an operation that does not finish, started from a
 //!   state that already holds a D6-stale value;
+//! * `D26:repl-merged-group-memberof-wiped-not-propagated` — replicated stream only: after an
+//!   incremental replication an entry keeps a value that a group listing it before the step held
+//!   then and has dropped (or that group is no longer live), and nobody above the entry holds it;
+//! a stale value inherited from an entry whose stale value already has a class gets that class;
 //! anything else is `unclassified`.
+//!
+//! Stream 4 drives a server pair (`setup_pair_test`, B refreshed from A, `supplier_provide_changes`
+//! / `consumer_apply_changes`) with operations on either side and incremental replication in both
+//! directions; oracle on the touched server after every step, no model.
 use hlib::*;
 use kanidmd_lib::entry::{Entry, EntryInit, EntryNew, EntrySealedCommitted};
 use kanidmd_lib::event::ReviveRecycledEvent;
 use kanidmd_lib::prelude::*;
-use kanidmd_lib::testkit::{setup_test, TestConfiguration};
+use kanidmd_lib::repl::proto::ConsumerState;
+use kanidmd_lib::testkit::{setup_pair_test, setup_test, TestConfiguration};
 use serde_json::{json, Value as J};
 use std::collections::{BTreeMap, BTreeSet};
 use std::io::{BufRead, BufReader};
@@ -125,6 +134,8 @@ struct Observed {
     result: String, // "ok" | "err:<e>" | "panic:<msg>"
     /// tracked entries in the model's `showState` format
     state: String,
+    /// the oracle's closure of every live tracked entry, in the model's `closure` format
+    closure: String,
     discs: Vec<Disc>,
     /// for the recognisers: live groups → members (member ∪ dynmember), stored memberof per live entry
     members: BTreeMap<Uuid, BTreeSet<Uuid>>,
@@ -134,7 +145,9 @@ struct Observed {
 }
 
 enum Req {
-    Run { base: u64, op: Op },
+    Run { base: u64, server: usize, op: Op },
+    /// incremental replication `from` → `to`, then observe `to`
+    Repl { base: u64, from: usize, to: usize },
     Quit,
 }
 
@@ -280,6 +293,7 @@ fn observe(qs: &QueryServer, rt: &tokio::runtime::Runtime, base: u64, obs: &mut 
     obs.live_entries = all.len();
     obs.live_groups = obs.members.len();
     obs.discs.clear();
+    let mut closure_parts: BTreeMap<u8, String> = BTreeMap::new();
     for e in all.iter() {
         let x = e.get_uuid();
         let direct: BTreeSet<Uuid> = parents.get(&x).cloned().unwrap_or_default();
@@ -294,6 +308,9 @@ fn observe(qs: &QueryServer, rt: &tokio::runtime::Runtime, base: u64, obs: &mut 
             }
         }
         debug_assert!(closure.iter().all(|g| live.contains(g)));
+        if let Some(i) = id_of(base, &x) {
+            closure_parts.insert(i, format!("{i}/{}", fmt_set(base, &closure)));
+        }
         let mo = refer_set(e, Attribute::MemberOf);
         let dmo = refer_set(e, Attribute::DirectMemberOf);
         for v in mo.difference(&closure) {
@@ -310,52 +327,86 @@ fn observe(qs: &QueryServer, rt: &tokio::runtime::Runtime, base: u64, obs: &mut 
         }
         obs.stored_mo.insert(x, mo);
     }
+    obs.closure = if closure_parts.is_empty() { "-".into() } else { closure_parts.into_values().collect::<Vec<_>>().join(" ") };
     Ok(())
 }
 
-fn worker(rx: Receiver<Req>, tx: Sender<Observed>) {
+fn exec_repl(qs: &[QueryServer], rt: &tokio::runtime::Runtime, ct: Duration, from: usize, to: usize) -> Result<(), String> {
+    let mut from_r = rt.block_on(qs[from].read()).map_err(|e| format!("read:{e:?}"))?;
+    let mut to_w = rt.block_on(qs[to].write(ct)).map_err(|e| format!("write:{e:?}"))?;
+    let state = to_w.consumer_get_state().map_err(|e| format!("consumer_get_state:{e:?}"))?;
+    let changes = from_r.supplier_provide_changes(state).map_err(|e| format!("supplier_provide_changes:{e:?}"))?;
+    match to_w.consumer_apply_changes(changes).map_err(|e| format!("consumer_apply_changes:{e:?}"))? {
+        ConsumerState::Ok => to_w.commit().map_err(|e| format!("commit:{e:?}")),
+        ConsumerState::RefreshRequired => Err("refresh-required".into()),
+    }
+}
+
+fn worker(pair: bool, rx: Receiver<Req>, tx: Sender<Observed>) {
     let rt = tokio::runtime::Builder::new_current_thread().enable_all().build().unwrap();
-    let qs = rt.block_on(setup_test(TestConfiguration::default()));
     let mut ct = duration_from_epoch_now();
+    let qs: Vec<QueryServer> = if pair {
+        let (a, b) = rt.block_on(setup_pair_test(TestConfiguration::default()));
+        // B becomes a replica of A (refresh), as a new node joining the topology
+        {
+            ct += Duration::from_secs(1);
+            let mut a_r = rt.block_on(a.read()).expect("read a");
+            let mut b_w = rt.block_on(b.write(ct)).expect("write b");
+            let ctx = a_r.supplier_provide_refresh().expect("refresh ctx");
+            b_w.consumer_apply_refresh(ctx).expect("apply refresh");
+            b_w.commit().expect("commit refresh");
+        }
+        vec![a, b]
+    } else {
+        vec![rt.block_on(setup_test(TestConfiguration::default()))]
+    };
     // signal readiness
     let _ = tx.send(Observed { result: "ready".into(), ..Default::default() });
     while let Ok(req) = rx.recv() {
-        match req {
+        ct += Duration::from_secs(1);
+        let (base, target, res) = match req {
             Req::Quit => break,
-            Req::Run { base, op } => {
-                ct += Duration::from_secs(1);
-                let mut obs = Observed::default();
-                let res = std::panic::catch_unwind(std::panic::AssertUnwindSafe(|| exec_op(&qs, &rt, ct, base, &op)));
-                obs.result = match res {
-                    Ok(Ok(())) => "ok".into(),
-                    Ok(Err(e)) => format!("err:{e}"),
-                    Err(p) => format!(
-                        "panic:{}",
-                        p.downcast_ref::<String>().cloned().or_else(|| p.downcast_ref::<&str>().map(|s| s.to_string())).unwrap_or_default()
-                    ),
-                };
-                let ob = std::panic::catch_unwind(std::panic::AssertUnwindSafe(|| observe(&qs, &rt, base, &mut obs)));
-                match ob {
-                    Ok(Ok(())) => {}
-                    Ok(Err(e)) => obs.result = format!("observe-failed:{e} after {}", obs.result),
-                    Err(_) => obs.result = format!("observe-panicked after {}", obs.result),
-                }
-                if tx.send(obs).is_err() {
-                    break;
-                }
+            Req::Run { base, server, op } => {
+                let r = std::panic::catch_unwind(std::panic::AssertUnwindSafe(|| exec_op(&qs[server], &rt, ct, base, &op)));
+                (base, server, r)
             }
+            Req::Repl { base, from, to } => {
+                let r = std::panic::catch_unwind(std::panic::AssertUnwindSafe(|| exec_repl(&qs, &rt, ct, from, to)));
+                (base, to, r)
+            }
+        };
+        let mut obs = Observed::default();
+        obs.result = match res {
+            Ok(Ok(())) => "ok".into(),
+            Ok(Err(e)) => format!("err:{e}"),
+            Err(p) => format!(
+                "panic:{}",
+                p.downcast_ref::<String>().cloned().or_else(|| p.downcast_ref::<&str>().map(|s| s.to_string())).unwrap_or_default()
+            ),
+        };
+        let ob = std::panic::catch_unwind(std::panic::AssertUnwindSafe(|| observe(&qs[target], &rt, base, &mut obs)));
+        match ob {
+            Ok(Ok(())) => {}
+            Ok(Err(e)) => obs.result = format!("observe-failed:{e} after {}", obs.result),
+            Err(_) => obs.result = format!("observe-panicked after {}", obs.result),
+        }
+        if tx.send(obs).is_err() {
+            break;
         }
     }
 }
 
 impl World {
     fn new() -> World {
+        World::with(false)
+    }
+    fn with(pair: bool) -> World {
         let (tx, wrx) = channel::<Req>();
         let (wtx, rx) = channel::<Observed>();
         std::thread::Builder::new()
             .name("c17-world".into())
             .stack_size(64 << 20)
-            .spawn(move || worker(wrx, wtx))
+            .spawn(move || worker(pair, wrx, wtx))
             .expect("spawn world");
         let ready = rx.recv_timeout(StdDuration::from_secs(300)).expect("server boot");
         assert_eq!(ready.result, "ready");
@@ -363,7 +414,16 @@ impl World {
     }
     /// `None` = the operation did not finish within the watchdog time (the world is lost).
     fn run(&self, base: u64, op: &Op, watchdog: StdDuration) -> Option<Observed> {
-        self.tx.send(Req::Run { base, op: op.clone() }).expect("world alive");
+        self.send(Req::Run { base, server: 0, op: op.clone() }, watchdog)
+    }
+    fn run_on(&self, base: u64, server: usize, op: &Op, watchdog: StdDuration) -> Option<Observed> {
+        self.send(Req::Run { base, server, op: op.clone() }, watchdog)
+    }
+    fn repl(&self, base: u64, from: usize, to: usize, watchdog: StdDuration) -> Option<Observed> {
+        self.send(Req::Repl { base, from, to }, watchdog)
+    }
+    fn send(&self, req: Req, watchdog: StdDuration) -> Option<Observed> {
+        self.tx.send(req).expect("world alive");
         match self.rx.recv_timeout(watchdog) {
             Ok(o) => Some(o),
             Err(RecvTimeoutError::Timeout) => None,
@@ -396,8 +456,22 @@ fn parents_of(obs: &Observed) -> BTreeMap<Uuid, BTreeSet<Uuid>> {
     p
 }
 
-/// Classify one discrepancy of the observed state. `revived` = groups revived so far.
-fn classify_disc(d: &Disc, obs: &Observed, revived: &BTreeSet<Uuid>) -> &'static str {
+const D26: &str = "D26:repl-merged-group-memberof-wiped-not-propagated";
+
+/// What a recogniser may look at: the observed state after the step, the one before it (same
+/// server), the groups revived so far, the classes already given to standing stale values, and
+/// whether the step was an incremental replication.
+struct ClassCtx<'a> {
+    obs: &'a Observed,
+    prev: Option<&'a Observed>,
+    revived: &'a BTreeSet<Uuid>,
+    known: &'a BTreeMap<(Uuid, Uuid), &'static str>,
+    is_repl: bool,
+}
+
+/// Classify one discrepancy of the observed state.
+fn classify_disc(d: &Disc, cx: &ClassCtx) -> &'static str {
+    let (obs, revived) = (cx.obs, cx.revived);
     let parents = parents_of(obs);
     let empty = BTreeSet::new();
     let holds = |x: &Uuid, v: &Uuid| obs.stored_mo.get(x).map(|s| s.contains(v)).unwrap_or(false);
@@ -417,7 +491,26 @@ fn classify_disc(d: &Disc, obs: &Observed, revived: &BTreeSet<Uuid>) -> &'static
                 }
                 match ps.iter().find(|p| holds(p, &d.value)) {
                     Some(p) => cur = *p,
-                    None => return "unclassified",
+                    None => {
+                        // a root: nobody above `cur` holds the value
+                        if let Some(c) = cx.known.get(&(cur, d.value)) {
+                            return c; // inherited from a standing, already classified stale value
+                        }
+                        // D26: after an incremental replication, a group that listed `cur` before the
+                        // step and held the value then, has dropped it (or is no longer a live group),
+                        // but `cur` itself was not recomputed
+                        if let (true, Some(prev)) = (cx.is_repl, cx.prev) {
+                            let dropped = prev.members.iter().any(|(p, ms)| {
+                                ms.contains(&cur)
+                                    && (*p == d.value || prev.stored_mo.get(p).map(|s| s.contains(&d.value)).unwrap_or(false))
+                                    && (!obs.members.contains_key(p) || !holds(p, &d.value))
+                            });
+                            if dropped {
+                                return D26;
+                            }
+                        }
+                        return "unclassified";
+                    }
                 }
             }
         }
@@ -556,6 +649,7 @@ fn run_history(world: &mut Option<World>, drv: &mut Driver, base: u64, ops: &[Op
     assert_eq!(drv.ask("reset"), "ok");
     let mut prev_discs: BTreeSet<Disc> = BTreeSet::new();
     let mut revived: BTreeSet<Uuid> = BTreeSet::new();
+    let mut known: BTreeMap<(Uuid, Uuid), &'static str> = BTreeMap::new();
     let mut stale_before = false;
     for (k, op) in ops.iter().enumerate() {
         let reply = drv.ask(&format!("op {}", op.token()));
@@ -600,6 +694,9 @@ fn run_history(world: &mut Option<World>, drv: &mut Driver, base: u64, ops: &[Op
             }
         };
         out.executed += 1;
+        if std::env::var_os("C17_TRACE").is_some() {
+            eprintln!("{:>14} -> {} | {} | model {} {} | discs {}", op.token(), obs.result, obs.state, mres, mstate, obs.discs.len());
+        }
         let ires = if obs.result == "ok" { "ok" } else if obs.result.starts_with("err:") { "err" } else { obs.result.as_str() };
         if ires == "ok" {
             out.ok_ops += 1;
@@ -626,6 +723,19 @@ fn run_history(world: &mut Option<World>, drv: &mut Driver, base: u64, ops: &[Op
             });
             return out; // the two sides are out of step
         }
+        // ---- the oracle's closure against the specification's (`Reach`, computed by the model's
+        // `closureIter` on the model state): ties the Rust oracle to the Lean statement
+        let mclosure = drv.ask("closure");
+        if mclosure != obs.closure {
+            out.events.push(Event {
+                kind: "impl-vs-model",
+                class: "oracle-vs-spec".into(),
+                at: k,
+                expected: format!("specification closure: {mclosure}"),
+                observed: format!("oracle closure: {}", obs.closure),
+            });
+            return out;
+        }
         // ---- oracle
         out.max_live_groups = out.max_live_groups.max(obs.live_groups);
         let tracked_groups: BTreeSet<Uuid> = obs.members.keys().filter(|g| id_of(base, g).is_some()).copied().collect();
@@ -643,9 +753,16 @@ fn run_history(world: &mut Option<World>, drv: &mut Driver, base: u64, ops: &[Op
         if !fresh.is_empty() {
             // one event per class among the discrepancies that appeared with this operation
             let mut by_class: BTreeMap<&'static str, Vec<&Disc>> = BTreeMap::new();
+            let mut newly = vec![];
             for d in fresh {
-                by_class.entry(classify_disc(d, &obs, &revived)).or_default().push(d);
+                let cx = ClassCtx { obs: &obs, prev: None, revived: &revived, known: &known, is_repl: false };
+                let c = classify_disc(d, &cx);
+                by_class.entry(c).or_default().push(d);
+                if d.attr == "mo" && d.kind == "extra" {
+                    newly.push(((d.entry, d.value), c));
+                }
             }
+            known.extend(newly);
             for (class, ds) in by_class {
                 let d = ds[0];
                 out.events.push(Event {
@@ -664,6 +781,7 @@ fn run_history(world: &mut Option<World>, drv: &mut Driver, base: u64, ops: &[Op
             }
         }
         stale_before = cur.iter().any(|d| d.attr == "mo" && d.kind == "extra");
+        known.retain(|(e, v), _| cur.iter().any(|d| d.attr == "mo" && d.kind == "extra" && d.entry == *e && d.value == *v));
         prev_discs = cur;
         if stop_at_first && !out.events.is_empty() {
             return out;
@@ -996,19 +1114,334 @@ fn gen_history(r: &mut Rng, mode: Mode) -> Vec<Op> {
     ops
 }
 
-/// The recorded witnesses (regression corpus): D6, D16, D21 and the repo's own unit-test graphs.
+/// Small fixed histories; the recorded defect witnesses (D6, D16, D21, D26) live in `corpus/C17/*.json`.
 fn corpus() -> Vec<(&'static str, Vec<Op>)> {
     let p = |s: &str| -> Vec<Op> { s.split(';').map(|t| Op::parse(t.trim())).collect() };
     vec![
-        ("d6-witness", p("cg 4 -; cg 1 -; cg 2 1; set 1 2; add 4 1; rem 4 1")),
-        ("d16-witness", p("cp 13; cg 1 13; del 1; rev 1")),
-        ("d21-witness", p("cg 10 -; cg 1 1; add 10 1; rem 10 1; cg 3 1; cg 2 3; set 1 2")),
         ("chain-then-cut", p("cp 13; cg 3 13; cg 2 3; cg 1 2; rem 2 3; add 2 3; del 2; rev 2")),
         ("cycle-build-and-break", p("cg 1 -; cg 2 1; cg 3 2; add 1 3; rem 1 3; del 3")),
         ("person-revive", p("cp 13; cg 2 13; cg 1 2; del 13; rev 13")),
         ("self-member", p("cg 1 1; cg 2 1; rem 1 1; del 2")),
         ("delete-two", p("cp 13; cg 3 13; cg 2 3; cg 1 2,3; del 2,3; rev 3; rev 2")),
     ]
+}
+
+// ---------------------------------------------------------------------------------------------
+// replicated histories (two servers, oracle only)
+// ---------------------------------------------------------------------------------------------
+
+/// One step of a replicated history: an operation on server 0 (A) or 1 (B), or an incremental
+/// replication from one to the other.
+#[derive(Clone, Debug, PartialEq, Eq)]
+enum RStep {
+    On(usize, Op),
+    Repl(usize, usize),
+}
+
+impl RStep {
+    fn token(&self) -> String {
+        let n = |i: usize| if i == 0 { "A" } else { "B" };
+        match self {
+            RStep::On(sv, op) => format!("{}:{}", n(*sv), op.token()),
+            RStep::Repl(f, t) => format!("{}>{}", n(*f), n(*t)),
+        }
+    }
+    fn parse(s: &str) -> RStep {
+        let sv = |c: &str| if c == "A" { 0 } else { 1 };
+        if let Some((a, b)) = s.split_once('>') {
+            RStep::Repl(sv(a), sv(b))
+        } else {
+            let (a, b) = s.split_once(':').expect("server:op");
+            RStep::On(sv(a), Op::parse(b))
+        }
+    }
+}
+
+fn gen_repl_history(r: &mut Rng) -> Vec<RStep> {
+    let ng = r.range(2, 8) as u8;
+    let np = r.range(1, 3) as u8;
+    let groups: Vec<u8> = (1..=ng).collect();
+    let persons: Vec<u8> = (NGROUP + 1..=NGROUP + np).collect();
+    let mut sh = Shadow::default();
+    let mut steps = vec![];
+    for p in &persons {
+        let op = Op::Cp(*p);
+        sh.apply(&op);
+        steps.push(RStep::On(0, op));
+    }
+    // Replicated histories keep every member link pointing from a lower to a higher group id, on
+    // both servers, so that every merged graph is acyclic: `worklist_terminates_ranked` then
+    // guarantees that no step can livelock (the model cannot predict livelocks of merged states).
+    let ok_edge = |g: u8, m: u8| !is_group_id(m) || m > g;
+    let mut order = groups.clone();
+    order.reverse();
+    for g in &order {
+        let mut ms: Vec<u8> = sh.live.iter().copied().filter(|m| ok_edge(*g, *m)).filter(|_| r.chance(1, 3)).collect();
+        ms.sort();
+        let op = Op::Cg(*g, ms);
+        sh.apply(&op);
+        steps.push(RStep::On(0, op));
+    }
+    steps.push(RStep::Repl(0, 1));
+    let len = r.range(5, 16);
+    for _ in 0..len {
+        if r.chance(1, 4) {
+            let f = r.below(2) as usize;
+            steps.push(RStep::Repl(f, 1 - f));
+            continue;
+        }
+        let sv = r.below(2) as usize;
+        let lg = sh.live_groups();
+        let live: Vec<u8> = sh.live.iter().copied().collect();
+        let roll = r.below(100);
+        let op = if roll < 40 && !lg.is_empty() && !live.is_empty() {
+            let g = *r.pick(&lg);
+            let cands: Vec<u8> = live.iter().copied().filter(|m| ok_edge(g, *m)).collect();
+            if cands.is_empty() {
+                continue;
+            }
+            Op::Add(g, *r.pick(&cands))
+        } else if roll < 65 && !lg.is_empty() {
+            let g = *r.pick(&lg);
+            let ms: Vec<u8> = sh.members.get(&g).map(|s| s.iter().copied().collect()).unwrap_or_default();
+            if ms.is_empty() {
+                continue;
+            }
+            Op::Rem(g, *r.pick(&ms))
+        } else if roll < 75 && !lg.is_empty() {
+            let g = *r.pick(&lg);
+            let mut ms: Vec<u8> = live.iter().copied().filter(|m| ok_edge(g, *m)).filter(|_| r.chance(1, 3)).collect();
+            ms.sort();
+            Op::Set(g, ms)
+        } else if roll < 87 && !live.is_empty() {
+            Op::Del(vec![*r.pick(&live)])
+        } else {
+            let rc: Vec<u8> = sh.recycled.iter().copied().collect();
+            if rc.is_empty() {
+                continue;
+            }
+            Op::Rev(*r.pick(&rc))
+        };
+        sh.apply(&op);
+        steps.push(RStep::On(sv, op));
+    }
+    // quiescence
+    steps.push(RStep::Repl(0, 1));
+    steps.push(RStep::Repl(1, 0));
+    steps.push(RStep::Repl(0, 1));
+    steps
+}
+
+/// Oracle-only run of a replicated history on a server pair.
+fn run_repl_history(world: &mut Option<World>, base: u64, steps: &[RStep], watchdog: StdDuration, stop_at_first: bool) -> Outcome {
+    let mut out = Outcome::default();
+    if world.is_none() {
+        *world = Some(World::with(true));
+    }
+    let mut prev: [BTreeSet<Disc>; 2] = [BTreeSet::new(), BTreeSet::new()];
+    let mut prev_obs: [Option<Observed>; 2] = [None, None];
+    let mut known: [BTreeMap<(Uuid, Uuid), &'static str>; 2] = [BTreeMap::new(), BTreeMap::new()];
+    let mut revived: BTreeSet<Uuid> = BTreeSet::new();
+    for (k, st) in steps.iter().enumerate() {
+        let (target, obs) = match st {
+            RStep::On(sv, op) => (*sv, world.as_ref().unwrap().run_on(base, *sv, op, watchdog)),
+            RStep::Repl(f, t) => (*t, world.as_ref().unwrap().repl(base, *f, *t, watchdog)),
+        };
+        let stale_before = prev[target].iter().any(|d| d.attr == "mo" && d.kind == "extra");
+        let obs = match obs {
+            Some(o) => o,
+            None => {
+                std::mem::forget(world.take());
+                out.world_lost = true;
+                out.events.push(Event {
+                    kind: "impl-vs-oracle",
+                    class: if stale_before { D21.into() } else { "unclassified".into() },
+                    at: k,
+                    expected: "the step commits or fails".into(),
+                    observed: format!("`{}` did not finish within {:?}", st.token(), watchdog),
+                });
+                return out;
+            }
+        };
+        out.executed += 1;
+        if std::env::var_os("C17_TRACE").is_some() {
+            eprintln!("{:>14} -> {} | {} | discs {}", st.token(), obs.result, obs.state, obs.discs.len());
+        }
+        if obs.result == "ok" {
+            out.ok_ops += 1;
+            match st {
+                RStep::On(_, Op::Rev(i)) => {
+                    out.revive_ok = true;
+                    if is_group_id(*i) {
+                        revived.insert(uuid_of(base, *i));
+                    }
+                }
+                RStep::On(_, op) if op.is_removal() => out.removal_ok = true,
+                RStep::Repl(..) => *out.op_kinds.entry("repl").or_insert(0) += 1,
+                _ => {}
+            }
+        } else {
+            out.err_ops += 1;
+            if let RStep::Repl(..) = st {
+                // replication itself must not fail in these histories (no conflicts are generated)
+                out.events.push(Event {
+                    kind: "impl-vs-oracle",
+                    class: "unclassified".into(),
+                    at: k,
+                    expected: "incremental replication applies".into(),
+                    observed: obs.result.clone(),
+                });
+                return out;
+            }
+        }
+        let tracked_groups: BTreeSet<Uuid> = obs.members.keys().filter(|g| id_of(base, g).is_some()).copied().collect();
+        if obs.members.iter().any(|(g, ms)| tracked_groups.contains(g) && ms.iter().any(|m| tracked_groups.contains(m))) {
+            out.had_group_edge = true;
+        }
+        let cur: BTreeSet<Disc> = obs.discs.iter().cloned().collect();
+        let fresh: Vec<&Disc> = cur.difference(&prev[target]).collect();
+        if !fresh.is_empty() {
+            let mut by_class: BTreeMap<&'static str, Vec<&Disc>> = BTreeMap::new();
+            let mut newly = vec![];
+            for d in fresh {
+                let cx = ClassCtx {
+                    obs: &obs,
+                    prev: prev_obs[target].as_ref(),
+                    revived: &revived,
+                    known: &known[target],
+                    is_repl: matches!(st, RStep::Repl(..)),
+                };
+                let c = classify_disc(d, &cx);
+                by_class.entry(c).or_default().push(d);
+                if d.attr == "mo" && d.kind == "extra" {
+                    newly.push(((d.entry, d.value), c));
+                }
+            }
+            known[target].extend(newly);
+            for (class, ds) in by_class {
+                let d = ds[0];
+                out.events.push(Event {
+                    kind: "impl-vs-oracle",
+                    class: class.into(),
+                    at: k,
+                    expected: format!(
+                        "after `{}` on server {}: {} of entry {} = breadth-first closure over stored member links",
+                        st.token(), if target == 0 { "A" } else { "B" }, d.attr, short(&d.entry, base)
+                    ),
+                    observed: format!(
+                        "{} discrepancies, e.g. entry {} {} has {} value {}",
+                        ds.len(), short(&d.entry, base), d.attr, d.kind, short(&d.value, base)
+                    ),
+                });
+            }
+        }
+        known[target].retain(|(e, v), _| cur.iter().any(|d| d.attr == "mo" && d.kind == "extra" && d.entry == *e && d.value == *v));
+        prev[target] = cur;
+        prev_obs[target] = Some(obs);
+        if stop_at_first && !out.events.is_empty() {
+            return out;
+        }
+    }
+    out
+}
+
+struct ReplCtx {
+    world: Option<World>,
+    next_base: u64,
+    worlds_lost: u32,
+    minimised: BTreeMap<String, u32>,
+}
+
+impl ReplCtx {
+    fn fresh_base(&mut self) -> u64 {
+        if self.world.as_ref().map(|w| w.cases_run >= 40).unwrap_or(false) {
+            self.world = None;
+        }
+        if self.world.is_none() {
+            self.world = Some(World::with(true));
+            self.next_base = 0;
+        }
+        self.world.as_mut().unwrap().cases_run += 1;
+        self.next_base += 1;
+        self.next_base
+    }
+    /// delete everything of the slot on both sides and let both sides know
+    fn cleanup(&mut self, base: u64, watchdog: StdDuration) {
+        let all: Vec<u8> = (1..=NGROUP + NPERSON).collect();
+        let steps = [RStep::On(0, Op::Del(all.clone())), RStep::On(1, Op::Del(all)), RStep::Repl(0, 1), RStep::Repl(1, 0)];
+        for st in steps.iter() {
+            let Some(w) = self.world.as_ref() else { return };
+            let r = match st {
+                RStep::On(sv, op) => w.run_on(base, *sv, op, watchdog),
+                RStep::Repl(f, t) => w.repl(base, *f, *t, watchdog),
+            };
+            if r.is_none() {
+                std::mem::forget(self.world.take());
+                self.worlds_lost += 1;
+                return;
+            }
+        }
+    }
+}
+
+fn rsteps_json(steps: &[RStep]) -> J {
+    json!(steps.iter().map(|o| o.token()).collect::<Vec<_>>())
+}
+
+fn run_repl_case(ctx: &mut ReplCtx, rep: &mut Report, steps: &[RStep], watchdog: StdDuration) {
+    let base = ctx.fresh_base();
+    let out = run_repl_history(&mut ctx.world, base, steps, watchdog, false);
+    if out.world_lost {
+        ctx.worlds_lost += 1;
+    } else {
+        ctx.cleanup(base, watchdog);
+    }
+    rep.count("replicated:cases");
+    rep.count_n("repl-steps-executed", out.executed as u64);
+    rep.count_n("repl-incrementals", out.op_kinds.get("repl").copied().unwrap_or(0));
+    let nontrivial = out.ok_ops >= 6 && out.had_group_edge && (out.removal_ok || out.revive_ok);
+    rep.case(if nontrivial { Some(format!("repl;{}", steps.iter().map(|o| o.token()).collect::<Vec<_>>().join(";"))) } else { None });
+    if rep.histogram.get("replicated:cases").copied().unwrap_or(0) == 1 {
+        rep.sample(json!({"stream": "replicated", "ops": rsteps_json(steps), "executed": out.executed, "events": out.events.len()}));
+    }
+    for ev in &out.events {
+        rep.count(&format!("event:repl:{}:{}", ev.kind, ev.class));
+        let seen = ctx.minimised.entry(format!("{}|{}", ev.kind, ev.class)).or_insert(0);
+        *seen += 1;
+        if *seen > 2 {
+            continue;
+        }
+        let upto = &steps[..=ev.at];
+        let (kind, class) = (ev.kind, ev.class.clone());
+        let mut budget = 30u32;
+        let mut lost = false;
+        let min_steps = if ev.observed.contains("did not finish") {
+            upto.to_vec() // never re-run a history that hangs
+        } else {
+            shrink_list(upto.to_vec(), |cand| {
+                if budget == 0 || lost || cand.is_empty() {
+                    return false;
+                }
+                budget -= 1;
+                let b = ctx.fresh_base();
+                let o = run_repl_history(&mut ctx.world, b, cand, watchdog, true);
+                if o.world_lost {
+                    lost = true;
+                    ctx.worlds_lost += 1;
+                    return false;
+                }
+                ctx.cleanup(b, watchdog);
+                o.events.iter().any(|e| e.kind == kind && e.class == class)
+            })
+        };
+        rep.fail(Failure {
+            kind: ev.kind.into(),
+            class: ev.class.clone(),
+            input: json!({"mode": "repl", "ops": rsteps_json(&min_steps), "from": rsteps_json(upto)}),
+            expected: ev.expected.clone(),
+            observed: ev.observed.clone(),
+        });
+    }
 }
 
 // ---------------------------------------------------------------------------------------------
@@ -1179,6 +1612,150 @@ fn minimise_livelock(drv: &mut Driver, ops: Vec<Op>) -> Vec<Op> {
     v
 }
 
+enum Job {
+    Corpus,
+    Exhaustive { part: u32, parts: u32 },
+    Random { from: u64, to: u64 },
+    Repl { from: u64, to: u64 },
+}
+
+/// One stream (or slice of a stream) with its own servers and model process.
+fn run_job(args: &Args, job: &Job) -> (Report, u32) {
+    let mut rep = Report::new("job", "");
+    let watchdog = StdDuration::from_secs(60);
+    match job {
+        Job::Corpus => {
+            // ---- stream 1: recorded witnesses
+            let mut drv = Driver::spawn(&args.driver);
+            let mut ctx = Ctx { world: None, next_base: 0, worlds_lost: 0, confirmed_hangs: 0, minimised: BTreeMap::new() };
+            for (_name, ops) in corpus() {
+                run_case(&mut ctx, &mut drv, &mut rep, args, "corpus", &ops, Mode::Full, watchdog);
+            }
+            // committed witnesses (corpus/C17/*.json, same format as a replay file)
+            let mut lost = ctx.worlds_lost;
+            let mut files: Vec<_> = std::fs::read_dir("corpus/C17")
+                .map(|d| d.filter_map(|e| e.ok()).map(|e| e.path()).filter(|p| p.extension().map(|x| x == "json").unwrap_or(false)).collect())
+                .unwrap_or_default();
+            files.sort();
+            if files.is_empty() {
+                rep.fail(Failure {
+                    kind: "impl-vs-model".into(),
+                    class: "harness-setup".into(),
+                    input: json!({}),
+                    expected: "corpus/C17/*.json present (the harness runs from the /verif root)".into(),
+                    observed: "no corpus file found".into(),
+                });
+            }
+            let mut rctx = ReplCtx { world: None, next_base: 0, worlds_lost: 0, minimised: BTreeMap::new() };
+            for f in files {
+                let v: J = match std::fs::read_to_string(&f).ok().and_then(|t| serde_json::from_str(&t).ok()) {
+                    Some(v) => v,
+                    None => {
+                        rep.note(format!("unreadable corpus file {}", f.display()));
+                        continue;
+                    }
+                };
+                let toks: Vec<String> = v["input"]["ops"].as_array().map(|a| a.iter().filter_map(|s| s.as_str().map(|x| x.to_string())).collect()).unwrap_or_default();
+                rep.count("corpus-files");
+                if v["input"]["mode"] == "repl" {
+                    let steps: Vec<RStep> = toks.iter().map(|t| RStep::parse(t)).collect();
+                    run_repl_case(&mut rctx, &mut rep, &steps, StdDuration::from_secs(30));
+                } else {
+                    // single-server witnesses (a `hangcheck` witness is run like any history: the model
+                    // predicts the livelock, the harness confirms it in a child process)
+                    let ops: Vec<Op> = toks.iter().map(|t| Op::parse(t)).collect();
+                    run_case(&mut ctx, &mut drv, &mut rep, args, "corpus", &ops, Mode::Full, watchdog);
+                }
+            }
+            lost += rctx.worlds_lost + (ctx.worlds_lost - lost);
+            rep.model_requests = drv.requests;
+            (rep, lost)
+        }
+        Job::Exhaustive { part, parts } => {
+            // ---- stream 2: every graph on 3 groups (thorough: self links too), every single-edge edit
+            let mut drv = Driver::spawn(&args.driver);
+            let mut ctx = Ctx { world: None, next_base: 0, worlds_lost: 0, confirmed_hangs: u32::MAX / 2, minimised: BTreeMap::new() };
+            let self_links = args.thorough();
+            let mut edges: Vec<(u8, u8)> = vec![];
+            for a in 1..=3u8 {
+                for b in 1..=3u8 {
+                    if a != b || self_links {
+                        edges.push((a, b));
+                    }
+                }
+            }
+            let ne = edges.len();
+            let mut count = 0u64;
+            for mask in (0u32..(1 << ne)).filter(|m| m % parts == *part) {
+                for (j, (a, b)) in edges.iter().enumerate() {
+                    // build: three empty groups, then each group's member list in one modify; then toggle edge j
+                    let mut ops = vec![Op::Cg(1, vec![]), Op::Cg(2, vec![]), Op::Cg(3, vec![])];
+                    for g in 1..=3u8 {
+                        let ms: Vec<u8> = edges.iter().enumerate().filter(|(i, (x, _))| *x == g && mask & (1 << i) != 0).map(|(_, (_, y))| *y).collect();
+                        if !ms.is_empty() {
+                            ops.push(Op::Set(g, ms));
+                        }
+                    }
+                    if mask & (1 << j) != 0 {
+                        ops.push(Op::Rem(*a, *b));
+                    } else {
+                        ops.push(Op::Add(*a, *b));
+                    }
+                    run_case(&mut ctx, &mut drv, &mut rep, args, "exhaustive3", &ops, Mode::Full, watchdog);
+                    count += 1;
+                    if ctx.worlds_lost >= 2 {
+                        break;
+                    }
+                }
+            }
+            rep.note(format!("exhaustive3 part {part}/{parts}: {count} (graph, edit) pairs, self links: {self_links}"));
+            rep.exhaustive = true;
+            rep.model_requests = drv.requests;
+            (rep, ctx.worlds_lost)
+        }
+        Job::Random { from, to } => {
+            // ---- stream 3: random histories
+            let mut drv = Driver::spawn(&args.driver);
+            let mut ctx = Ctx { world: None, next_base: 0, worlds_lost: 0, confirmed_hangs: 0, minimised: BTreeMap::new() };
+            for c in *from..*to {
+                if ctx.worlds_lost >= 2 {
+                    rep.note("random stream slice stopped early: two servers lost to operations that never returned");
+                    break;
+                }
+                let mut r = Rng::for_case(args.seed, c);
+                let mode = match c % 4 {
+                    0 => Mode::Acyclic,
+                    1 => Mode::Cyclic,
+                    _ => Mode::Full,
+                };
+                let ops = gen_history(&mut r, mode);
+                let stream = match mode {
+                    Mode::Acyclic => "random-acyclic",
+                    Mode::Cyclic => "random-cyclic",
+                    Mode::Full => "random-full",
+                };
+                run_case(&mut ctx, &mut drv, &mut rep, args, stream, &ops, mode, watchdog);
+            }
+            rep.model_requests = drv.requests;
+            (rep, ctx.worlds_lost)
+        }
+        Job::Repl { from, to } => {
+            // ---- stream 4: replicated histories on a server pair (oracle on both sides after every step)
+            let mut rctx = ReplCtx { world: None, next_base: 0, worlds_lost: 0, minimised: BTreeMap::new() };
+            for c in *from..*to {
+                if rctx.worlds_lost >= 2 {
+                    rep.note("replicated stream slice stopped early: two server pairs lost to steps that never returned");
+                    break;
+                }
+                let mut r = Rng::for_case(args.seed, 5_000_000 + c);
+                let steps = gen_repl_history(&mut r);
+                run_repl_case(&mut rctx, &mut rep, &steps, StdDuration::from_secs(30));
+            }
+            (rep, rctx.worlds_lost)
+        }
+    }
+}
+
 fn main() {
     if std::env::var_os("RUST_LOG").is_none() {
         std::env::set_var("RUST_LOG", "off");
@@ -1204,6 +1781,15 @@ fn main() {
 
     if let Some(path) = &args.replay {
         let v: J = serde_json::from_str(&std::fs::read_to_string(path).unwrap()).unwrap();
+        if v["input"]["mode"] == "repl" {
+            let steps: Vec<RStep> = v["input"]["ops"].as_array().unwrap().iter().map(|s| RStep::parse(s.as_str().unwrap())).collect();
+            let mut rctx = ReplCtx { world: None, next_base: 0, worlds_lost: 0, minimised: BTreeMap::new() };
+            run_repl_case(&mut rctx, &mut rep, &steps, StdDuration::from_secs(30));
+            rep.model_requests = drv.requests;
+            rep.write(&args.out);
+            println!("c17 replay: {} failures", rep.failures.len());
+            std::process::exit(0);
+        }
         let ops: Vec<Op> = v["input"]["ops"].as_array().unwrap().iter().map(|s| Op::parse(s.as_str().unwrap())).collect();
         if v["input"]["mode"] == "hangcheck" {
             match confirm_hang(&ops, StdDuration::from_secs(10)) {
@@ -1227,72 +1813,60 @@ fn main() {
         return;
     }
 
-    // ---- stream 1: recorded witnesses
-    for (_name, ops) in corpus() {
-        run_case(&mut ctx, &mut drv, &mut rep, &args, "corpus", &ops, Mode::Full, watchdog);
+    drop(drv);
+    drop(ctx);
+    let only = args.extra.get("only").cloned();
+    let want = |name: &str| only.as_deref().map(|o| o == name).unwrap_or(true);
+    // The streams are independent (own servers, own model process, cases derived from
+    // (seed, index) only), so they run as parallel jobs and their reports are merged in job order.
+    let mut jobs: Vec<Job> = vec![];
+    if want("corpus") {
+        jobs.push(Job::Corpus);
     }
-    // ---- stream 2: exhaustive — every graph on 3 groups (thorough: self links too), every single-edge edit
-    {
-        let self_links = args.thorough();
-        let mut edges: Vec<(u8, u8)> = vec![];
-        for a in 1..=3u8 {
-            for b in 1..=3u8 {
-                if a != b || self_links {
-                    edges.push((a, b));
-                }
-            }
+    if want("exhaustive") {
+        let parts = if args.thorough() { 6 } else { 3 };
+        for part in 0..parts {
+            jobs.push(Job::Exhaustive { part, parts });
         }
-        let ne = edges.len();
-        let mut count = 0u64;
-        for mask in 0u32..(1 << ne) {
-            for (j, (a, b)) in edges.iter().enumerate() {
-                // build: three empty groups, then each group's member list in one modify; then toggle edge j
-                let mut ops = vec![Op::Cg(1, vec![]), Op::Cg(2, vec![]), Op::Cg(3, vec![])];
-                for g in 1..=3u8 {
-                    let ms: Vec<u8> = edges.iter().enumerate().filter(|(i, (x, _))| *x == g && mask & (1 << i) != 0).map(|(_, (_, y))| *y).collect();
-                    if !ms.is_empty() {
-                        ops.push(Op::Set(g, ms));
-                    }
-                }
-                if mask & (1 << j) != 0 {
-                    ops.push(Op::Rem(*a, *b));
-                } else {
-                    ops.push(Op::Add(*a, *b));
-                }
-                run_case(&mut ctx, &mut drv, &mut rep, &args, "exhaustive3", &ops, Mode::Full, watchdog);
-                count += 1;
-                if ctx.worlds_lost >= 3 {
-                    break;
-                }
-            }
-        }
-        rep.note(format!("exhaustive3: {count} (graph, edit) pairs, self links: {self_links}"));
-        rep.exhaustive = true;
     }
-    // ---- stream 3: random histories
-    let n = args.cases(200, 6000);
-    for c in 0..n {
-        if ctx.worlds_lost >= 3 {
-            rep.note("stopped early: three servers lost to operations that never returned");
-            break;
+    if want("random") {
+        let n = args.cases(240, 6000);
+        let parts = if args.thorough() { 6 } else { 4 };
+        for k in 0..parts {
+            jobs.push(Job::Random { from: n * k / parts, to: n * (k + 1) / parts });
         }
-        let mut r = Rng::for_case(args.seed, c);
-        let mode = match c % 4 {
-            0 => Mode::Acyclic,
-            1 => Mode::Cyclic,
-            _ => Mode::Full,
-        };
-        let ops = gen_history(&mut r, mode);
-        let stream = match mode {
-            Mode::Acyclic => "random-acyclic",
-            Mode::Cyclic => "random-cyclic",
-            Mode::Full => "random-full",
-        };
-        run_case(&mut ctx, &mut drv, &mut rep, &args, stream, &ops, mode, watchdog);
     }
-    rep.model_requests = drv.requests;
+    if want("repl") {
+        let n = args.cases(60, 1200);
+        let parts = if args.thorough() { 3 } else { 2 };
+        for k in 0..parts {
+            jobs.push(Job::Repl { from: n * k / parts, to: n * (k + 1) / parts });
+        }
+    }
+    let results: Vec<(Report, u32)> = std::thread::scope(|sc| {
+        let handles: Vec<_> = jobs.iter().map(|job| { let a = &args; sc.spawn(move || run_job(a, job)) }).collect();
+        handles.into_iter().map(|h| h.join().expect("job panicked")).collect()
+    });
+    let mut lost = 0;
+    for (r, l) in results {
+        lost += l;
+        rep.evaluations += r.evaluations;
+        rep.nontrivial_keys.extend(r.nontrivial_keys);
+        for (k, v) in r.histogram {
+            *rep.histogram.entry(k).or_insert(0) += v;
+        }
+        for s in r.samples {
+            rep.sample(s);
+        }
+        for f in r.failures {
+            rep.fail(f);
+        }
+        rep.notes.extend(r.notes);
+        rep.exhaustive |= r.exhaustive;
+        rep.model_requests += r.model_requests;
+    }
     rep.write(&args.out);
-    println!("c17: {} cases, {} failures, {} worlds lost", rep.evaluations, rep.failures.len(), ctx.worlds_lost);
+    println!("c17: {} cases, {} failures, {} worlds lost", rep.evaluations, rep.failures.len(), lost);
     // worker threads that never returned must not keep the process alive
     std::process::exit(0);
 }
